@@ -13,6 +13,9 @@ def parseOps (s : String) : List Op :=
   (s.splitOn ",").filterMap fun t =>
     if t.startsWith "r" then (t.drop 1).toString.toNat?.map .read
     else if t.startsWith "s" then (t.drop 1).toString.toNat?.map .skip
+    else if t.startsWith "v" then
+      -- a read_exact of the total length, carried out through vectored reads into slices of these lengths
+      some (.read (((t.drop 1).toString.splitOn "+").foldl (fun acc x => acc + (x.toNat?.getD 0)) 0))
     else if t == "p" then some .pos
     else if t == "l" then some .len
     else none
@@ -105,7 +108,8 @@ def handle (kv : KV) : String :=
     let buffered : Option String :=
       if adapter == "bufreader" || adapter == "bufreader-seekskip" || adapter == "refmut" || adapter == "box" || adapter == "file"
           || adapter == "abufreader" || adapter == "apinbox" || adapter == "sparse-bufreader"
-          || adapter == "abufreader-pend" || adapter == "apinbox-pend" || adapter == "arefmut" || adapter == "abox" then
+          || adapter == "abufreader-pend" || adapter == "apinbox-pend" || adapter == "arefmut" || adapter == "abox"
+          || adapter == "abufreader-syncadapter" then
         some (",".intercalate (runOps (bufOps cap raw) ops ⟨0, []⟩))
       else if adapter == "bufreader-box-bufreader" || adapter == "abufreader-abufreader" then
         some (",".intercalate (runOps (bufOps cap (bufRaw 3 raw)) ops ⟨⟨0, []⟩, []⟩))
